@@ -69,13 +69,19 @@ try:
         pkgdir = pkgdir_for_demo(wt, demos[0], pkgdir)
     for d in demos:
         shutil.copy(d, os.path.join(wt, pkgdir))
-    cmd = f"go test -mod=mod -vet=off -count=1 -run 'Benign|Demo|Equiv' {pkgdir}"
+    # run exactly the demo's own test functions, whatever they are called
+    names = []
+    for d in demos:
+        names += re.findall(r"^func (Test\w+)\(", open(d).read(), re.M)
+    pat = "^(" + "|".join(sorted(set(names))) + ")$" if names else "Benign|Demo|Equiv"
+    cmd = f"go test -mod=mod -vet=off -count=1 -run '{pat}' {pkgdir}"
+    res["demo_passes_without_note"] = ""
     rc1, out1 = run(cmd + " 2>&1 | tail -8", wt)
     res["demo_passes_with"] = rc1 == 0 and "FAIL" not in out1 and "no tests to run" not in out1
     res["demo_out_with"] = out1[-300:]
     run(f"git apply -R {src}/patch.diff", wt)
     rc2, out2 = run(cmd + " 2>&1 | tail -8", wt)
-    res["demo_passes_without"] = rc2 == 0 and "FAIL" not in out2
+    res["demo_passes_without"] = rc2 == 0 and "FAIL" not in out2 and "no tests to run" not in out2
     res["demo_cmd"] = cmd
 finally:
     subprocess.run(f"git -C /repo worktree remove --force {wt}", shell=True, capture_output=True)
